@@ -63,7 +63,6 @@ impl MT200 {
 
         verify_parser_complete(&parser)?;
 
-
         Ok(MT200 {
             field_20,
             field_32a,
